@@ -84,6 +84,36 @@ SUMMARY = {
     "C20_2": "`nlargest/nsmallest` prune lazily at 2n candidates",
     "C20_3": "closed tee child keeps its backlog alive through its handle",
     "C20_4": "groupby remembers every group it handed out (one item per group with key=None)",
+    "S01_1": "strict `zip`: `None` mistaken for exhaustion in the surplus check",
+    "S01_2": "`zip` cleanup aborts at the first iterator without `aclose` (later sources leak)",
+    "S01_3": "`iter(callable, sentinel)` compares by identity for `None` / types without `__eq__`",
+    "S02_1": "`sum` uses `+=` after the first addition (list start + tuple item accepted, first element mutated)",
+    "S02_2": "`min/max`: first key evaluated inside the empty-iterable guard (key raising StopAsyncIteration = 'empty')",
+    "S02_3": "`sorted` without key on an async source: reverse by sort-then-reverse (stability lost)",
+    "S03_1": "`zip_longest` tracks iterators by identity: the same iterator passed twice loses the padded tail",
+    "S03_2": "`batched(strict=True)` via strict zip replaces a source's own ValueError",
+    "S03_3": "`accumulate` default reduction uses `+=` (mutable items: all results are one mutated object)",
+    "S04_1": "tee enters/exits the lock by hand: a cancelled waiter releases the lock of its sibling",
+    "S04_2": "chain counts started iterators: an owned iterator is skipped on early close after a non-closeable one",
+    "S04_3": "tee appends to the buffers after releasing the lock (needs a lock whose release suspends)",
+    "S05_1": "groupby default key through `Awaitify`: an awaitable first item is awaited",
+    "S05_2": "groupby: key raising StopAsyncIteration taken for exhaustion, source not closed on aclose",
+    "S05_3": "groupby yields to the loop after every 32 skipped items (library-made suspension)",
+    "S06_1": "`nlargest/nsmallest` key-less fast path drops the position tie-breaker",
+    "S06_2": "`nlargest(n=1)` shortcut uses `None` as 'nothing yet' marker",
+    "S06_3": "`merge` cleanup loop in one try: the first source without `aclose` aborts closing the rest",
+    "S07_1": "typed cache key loses keyword value types",
+    "S07_2": "LRU refresh skipped while the cache still has room",
+    "S07_3": "descriptor binding tests truthiness of the instance (falsy instance gets the unbound cache)",
+    "S08_1": "`reduce`: reducer raising StopAsyncIteration mistaken for end of input",
+    "S08_2": "cached_property placeholder memoises its own result (stale after `del`)",
+    "S08_3": "cached_property failure cleanup pops another run's cached value",
+    "S09_1": "contextmanager swallows a RuntimeError chained `from` the block's exception",
+    "S09_2": "ExitStack detaches its callback deque before unwinding (exits registered during unwinding wait)",
+    "S09_3": "ExitStack truth test of the exit result outside the try (raising `__bool__` aborts the unwind)",
+    "S10_1": "borrowed handle: asend/athrow disabled only when the iterator has `athrow`",
+    "S10_2": "`ScopedIter` swallows an AttributeError raised by the source's `aclose`",
+    "S10_3": "`sync()` commits to the flavour of the first result",
 }
 
 
